@@ -184,6 +184,71 @@ pub fn case_with(input: &Input, n: usize, poison: Option<i64>, pair: Option<(i64
     Case { text, expected, label, pair_mode: pair.is_some() }
 }
 
+/// built-in (derived) comparisons of plain int sequences that share a long prefix: under a
+/// search limit each line is either the lexicographic answer or the run ends in MaximumSearch
+pub fn seq_search_case(rng: &mut Prng) -> Case {
+    let len = 6 + rng.below(30) as usize;
+    let a: Vec<i64> = (0..len as i64).map(|i| i * 2 + 1).collect();
+    let variant = |rng: &mut Prng, a: &Vec<i64>| -> Vec<i64> {
+        let mut b = a.clone();
+        match rng.below(5) {
+            0 => {}
+            1 => {
+                let at = rng.below(len as u64) as usize;
+                b[at] += if rng.below(2) == 0 { 1 } else { -1 };
+            }
+            2 => {
+                let l = b.len() - 1;
+                b[l] += 5;
+            }
+            3 => {
+                b.pop();
+            }
+            _ => b.push(0),
+        }
+        b
+    };
+    let b = variant(rng, &a);
+    let c = variant(rng, &a);
+    let sign = |o: std::cmp::Ordering| match o {
+        std::cmp::Ordering::Less => "-1",
+        std::cmp::Ordering::Equal => "0",
+        std::cmp::Ordering::Greater => "1",
+    };
+    let mut text = String::new();
+    text.push_str(&format!("let v_a = {};
+let v_b = {};
+let v_c = {};
+", lit(&a), lit(&b), lit(&c)));
+    let mut sorted = vec![b.clone(), a.clone(), c.clone()];
+    sorted.sort();
+    let sorted_str = format!("[{}]", sorted.iter().map(|v| seq_str(v)).collect::<Vec<_>>().join(", "));
+    let mut smallest = vec![c.clone(), b.clone(), a.clone()];
+    smallest.sort();
+    let body: Vec<(String, Expect)> = vec![
+        ("display(cmp(v_a, v_b).to_str())".into(), Expect::Exact(sign(a.cmp(&b)).into())),
+        ("display(cmp(v_b, v_a).to_str())".into(), Expect::Exact(sign(b.cmp(&a)).into())),
+        ("display((v_a == v_b).to_str())".into(), Expect::Exact((a == b).to_string())),
+        ("display((v_a != v_c).to_str())".into(), Expect::Exact((a != c).to_string())),
+        ("display((v_a < v_b).to_str())".into(), Expect::Exact((a < b).to_string())),
+        ("display((v_c >= v_b).to_str())".into(), Expect::Exact((c >= b).to_string())),
+        ("display((hash(v_a) == hash(v_b)).to_str())".into(), if a == b { Expect::Exact("true".into()) } else { Expect::OneOf(vec!["true".into(), "false".into()]) }),
+        ("display([v_b, v_a, v_c].sort().to_str())".into(), Expect::Exact(sorted_str.clone())),
+        ("display([v_b, v_a, v_c].sort((v_x: Sequence<int>, v_y: Sequence<int>)->{cmp(v_x, v_y)}).to_str())".into(), Expect::Exact(sorted_str)),
+        ("display([v_c, v_b, v_a].n_smallest(1).to_str())".into(), Expect::Exact(format!("[{}]", seq_str(&smallest[0])))),
+        ("display(v_a.to_str())".into(), Expect::Exact(seq_str(&a))),
+    ];
+    text.push_str("fn main()->bool{\n");
+    let mut expected = vec![];
+    for (j, (e, x)) in body.into_iter().enumerate() {
+        text.push_str(&format!("    let v_o{j} = {e};\n"));
+        expected.push(x);
+    }
+    text.push_str("    true\n}\n");
+    let first_diff = a.iter().zip(b.iter()).position(|(x, y)| x != y).unwrap_or(a.len().min(b.len()));
+    Case { text, expected, label: format!("C19 seqsearch len={len} diff_at={first_diff} lens=({},{},{})", a.len(), b.len(), c.len()), pair_mode: false }
+}
+
 fn check_output(c: &Case, out: &str) -> Option<String> {
     if c.pair_mode {
         let mut hit = false;
@@ -312,6 +377,21 @@ pub fn make(spec: &JobSpec, ex: &mut Executor, out: &mut JobResult) -> Option<Bo
             if out.samples.len() < 2 {
                 out.samples.push(json!({"kind": "faults", "label": c.label, "comparator_calls_in_reference": nd.calls, "fault_points": points.len()}));
             }
+            Some(Box::new(FaultJob { base, points: points.into_iter().map(|p| p.scenario).collect(), case: c }))
+        }
+        "seq-search" => {
+            let mut rng = Prng::new(spec.seed);
+            let c = seq_search_case(&mut rng);
+            let mut sc = Scenario::standard(&c.text, Limits::calibration());
+            sc.label = c.label.clone();
+            sc.ops = super::c06::rerun_ops();
+            let base = prepare_base(P, P, &sc, ex, out)?;
+            // the fault-free run itself is compared with the harness-side lexicographic order
+            if let Some(diff) = check_output(&c, &String::from_utf8_lossy(&base.reference.out[..base.reference.ops.get(1).map_or(0, |o| o.out_len).min(base.reference.out.len())])) {
+                out.violate(violation(P, P, ("compare".into(), "derived sequence comparison differs from the lexicographic reference".into(), diff), &sc));
+            }
+            out.probe("sequence_comparisons_compared");
+            let (points, _) = sweep::points(&base, &[Kind::Search], 64, spec.seed);
             Some(Box::new(FaultJob { base, points: points.into_iter().map(|p| p.scenario).collect(), case: c }))
         }
         "coherence" => Some(Box::new(CoherenceJob)),
